@@ -186,8 +186,21 @@ static std::string quoted(const Fmt &f, const TN &n)
 	for (char c : n.val) { if (c == q) s += '\\'; s += c; }
 	return s + q;
 }
-static std::string render(const Fmt &f, const std::vector<TN> &tree, unsigned mask)
+// white space flavour: what is written at every insertion site a mask bit enables.  a = sites before / left of a token
+// (indentation, before '=', before the brace, before the closing bracket, before the option end character),
+// b = sites after / right of a token (after '=', after the opening bracket, trailing blanks, before a trailing comment).
+// Flavour 0 is the mixed default (one blank as padding, two blanks or a tab as indentation / trailing blanks).
+struct Flav { const char *name, *a, *b; };
+static const Flav flavs[] = {
+	{ "default-mix", 0, 0 }, { "one-blank", " ", " " }, { "two-blanks", "  ", "  " }, { "three-blanks", "   ", "   " }, { "tab", "\t", "\t" },
+	{ "blank+tab", " \t", " \t" }, { "tab+blank", "\t ", "\t " }, { "run-before,none-after", "  ", "" }, { "none-before,mix-after", "", "\t  " },
+};
+static const int NFLAV = sizeof flavs / sizeof *flavs;
+static const unsigned WSBITS = INDENT | TRAIL | TRAILCOM | PAD;
+
+static std::string render(const Fmt &f, const std::vector<TN> &tree, unsigned mask, int flav = 0)
 {
+	const Flav &fl = flavs[flav];
 	std::vector<Line> lines;
 	flatten(tree, 0, f, lines);
 	// sep / enc layout variant: first option of a section follows on the header line
@@ -202,43 +215,45 @@ static std::string render(const Fmt &f, const std::vector<TN> &tree, unsigned ma
 		const Line &l = lines[i];
 		// ALT: per-line decorations on every other line only (decorated and bare lines mixed in one text)
 		const unsigned mask = ((docmask & ALT) && (i % 2)) ? (docmask & ~PERLINE) : docmask;
-		const char *pad = (mask & PAD) ? " " : "";
+		const char *pa = (mask & PAD) ? (flav ? fl.a : " ") : "", *pb = (mask & PAD) ? (flav ? fl.b : " ") : "";
 		const char com = f.com[i % ncom];
 		bool next_joined = i + 1 < lines.size() && lines[i + 1].joined;
 		if (!l.joined) {
 			if (mask & BLANK) d += (i % 2) ? " \t\n" : "\n";
 			if (mask & COMLINE) { if ((mask & INDENT) && (i % 2)) d += ' '; d += com; d += ctext; d += '\n'; }
-			if (mask & INDENT) d += (l.depth % 2) ? "\t" : "  ";
+			if (mask & INDENT) d += flav ? fl.a : ((l.depth % 2) ? "\t" : "  ");
 		}
 		bool comment_ok = !next_joined;
 		switch (l.kind) {
 		case 0:
-			d += l.n->name; d += pad; d += f.assign; d += pad; d += quoted(f, *l.n);
-			if (f.oend) { d += pad; d += f.oend; }
+			d += l.n->name; d += pa; d += f.assign; d += pb; d += quoted(f, *l.n);
+			if (f.oend) { d += pa; d += f.oend; }
 			break;
 		case 1:
 			if (f.style == '*') {
 				d += l.n->name;
 				if (mask & LAYOUT) {   // name on its own line, section start is the next visible character
-					if (mask & TRAIL) d += "  ";
+					if (mask & TRAIL) d += flav ? fl.b : "  ";
 					d += '\n';
 					if (mask & BLANK) d += "\n";
 					if (mask & COMLINE) { d += com; d += ctext; d += '\n'; }
-					if (mask & INDENT) d += "\t";
-				} else d += pad;
+					if (mask & INDENT) d += flav ? fl.a : "\t";
+				} else d += pa;
 				d += f.sstart;
 			}
-			else if (f.style == ' ') { d += f.sstart; d += pad; d += l.n->name; d += pad; d += f.send; }
-			else { d += f.sstart; d += pad; d += l.n->name; }
+			else if (f.style == ' ') { d += f.sstart; d += pb; d += l.n->name; d += pa; d += f.send; }
+			else { d += f.sstart; d += pb; d += l.n->name; }
 			break;
 		case 2:
 			d += f.send;
 			break;
 		}
-		if (mask & TRAIL) d += (i % 2) ? "\t" : "  ";
+		if (mask & TRAIL) d += flav ? fl.b : ((i % 2) ? "\t" : "  ");
 		bool had_comment = false;
-		if ((mask & TRAILCOM) && comment_ok) { d += ' '; d += com; d += ctext; had_comment = true; }
-		if (next_joined) d += ' ';
+		// a trailing comment needs white space in front of it, the joined option white space behind the header
+		const char *sep = (flav && fl.b[0]) ? fl.b : " ";
+		if ((mask & TRAILCOM) && comment_ok) { d += sep; d += com; d += ctext; had_comment = true; }
+		if (next_joined) d += sep;
 		else if (oneline && !had_comment) { /* items follow each other directly */ }
 		else d += '\n';
 	}
